@@ -81,7 +81,7 @@ def equal_claims(got, exp) -> bool:
     return True
 
 
-def one(sc, algpair, idx: int, seed: int):
+def _one_impl(sc, algpair, idx: int, seed: int):
     from joserfc import jwt, jwe
     from joserfc.jwk import KeySet
     from joserfc.errors import InvalidPayloadError, JoseError
@@ -174,6 +174,17 @@ def run_chunk(args):
 def sig(sc, what) -> str:
     return f"jwt:{sc['tr']} typ={sc['typ']} key={sc['keyarg']} payload={sc['payload']} tampered={sc['tampered']} by={sc['madeby']} -> {what}"
 
+
+
+def one(sc, algpair, idx: int, seed: int):
+    from .common import from_library
+    try:
+        return _one_impl(sc, algpair, idx, seed)
+    except Exception as e:  # noqa
+        where = from_library(e)
+        if where is None:
+            raise
+        return [("library-raised-" + where.split("@")[0], where)]
 
 def run(ctx: Ctx) -> None:
     thorough = ctx.tier == "thorough"
